@@ -233,6 +233,65 @@ def drv_dtypes(c, ctx, col):
     col.sample(detail)
 
 
+def drv_narwhals(c, ctx, col):
+    """the same policy under the narwhals materializer (pandas frame or pyarrow table as input)"""
+    import pyarrow as pa
+    n = ctx["n"]
+    formula = c.pick(ctx["formulas"])
+    source = c.pick(["narwhals/pandas", "narwhals/arrow"])
+    output = c.pick(["pandas", "numpy", "sparse"])
+    a_null, A_null = pattern(c, n, 2), pattern(c, n, 2)
+    if len(a_null) + len(A_null) > 2:
+        raise Skip()
+    y_null = pattern(c, n, 1) if "y" in FORMULAS[formula][0] else ()
+    dropname = c.pick(["none", "empty", "{0}"])
+    policy = c.pick(["drop", "raise"])
+    df = make_frame(n, a_null, A_null, y_null, "default")
+    data = pa.Table.from_pandas(df, preserve_index=False) if source == "narwhals/arrow" else df
+    nulls = null_rows(formula, a_null, A_null, y_null)
+    caller = DROPSETS[dropname]
+    key = "narwhals %r source=%s a_null=%s A_null=%s y_null=%s drop=%s output=%s policy=%s" % (
+        formula, source, a_null, A_null, y_null, dropname, output, policy)
+    detail = {"formula": formula, "source": source, "a_null": a_null, "A_null": A_null, "y_null": y_null, "drop_rows": dropname,
+              "output": output, "policy": policy}
+    opts = {"output": output}
+    if source == "narwhals/pandas":
+        opts["materializer"] = "narwhals"
+    if policy == "raise":
+        err = None
+        try:
+            model_matrix(formula, data, na_action="raise", **opts)
+        except Exception as e:  # noqa
+            err = e
+        if nulls:
+            col.interesting()
+        if bool(nulls) != (err is not None):
+            col.violation(key, dict(detail, raised=repr(err), null_rows=sorted(nulls)),
+                          sig="narwhals:raise:" + ("no-error-despite-nulls" if nulls else "error-without-nulls"))
+        return
+    kept = [i for i in range(n) if i not in (caller or ()) and i not in nulls]
+    removed = set(range(n)) - set(kept)
+    if kept and removed:
+        col.interesting()
+    drop = set(caller) if caller is not None else None
+    try:
+        got = model_matrix(formula, data, drop_rows=drop, **opts)
+    except Exception as e:  # noqa
+        col.violation(key, dict(detail, error="%s: %s" % (type(e).__name__, str(e)[:200])), sig="narwhals:raised:" + type(e).__name__)
+        return
+    if not kept:
+        return
+    want = model_matrix(formula, df.iloc[kept], na_action="ignore", output=output)
+    for j, (g, w) in enumerate(zip(parts_of(got), parts_of(want))):
+        G, W = dense(g), dense(w)
+        if G.shape != W.shape or not np.allclose(G, W, rtol=1e-12, atol=1e-12, equal_nan=True):
+            col.violation(key, dict(detail, part=j, got=G.tolist(), want=W.tolist(), kept=kept), sig="narwhals:wrong-rows")
+            return
+    if drop is not None and {int(i) for i in drop} != removed:
+        col.violation(key, dict(detail, drop_set_after=sorted(int(i) for i in drop), expected=sorted(removed)), sig="narwhals:drop-set-not-updated")
+    col.sample(detail)
+
+
 def drv_reuse(c, ctx, col):
     """a fitted spec applied to data with nulls (drop policy travels with the spec)"""
     n = ctx["n"]
@@ -343,6 +402,9 @@ def subchecks(tier, seed):
                     "outputs": ["pandas", "numpy", "sparse"]}),
         Sub("drop-dtypes", drv_dtypes, {"n": 3, "formulas": ["a", "A", "a + A", "a:A", "y ~ a", "C(A)", "{a+1}"]}, shard_depth=3,
             bounds={"rows": 3, "null carriers": {"a": A_DTYPES, "A": T_DTYPES}, "null_patterns": "1..2 nulls over a, A"}),
+        Sub("drop-narwhals", drv_narwhals, {"n": 3, "formulas": [f for f in allf if "hashed" not in f]}, shard_depth=3,
+            bounds={"rows": 3, "materializer": "narwhals on a pandas frame / on a pyarrow table", "null_patterns": "<= 2 nulls over a, A; <= 1 in y",
+                    "policies": ["drop", "raise"]}),
         Sub("drop-reuse", drv_reuse, {"n": 3, "formulas": [f for f in allf if "hashed" not in f], "max_nulls": 1 if quick else 2}, shard_depth=3,
             bounds={"rows": 3, "fit": "clean frame", "apply": "frame with <= %d nulls over a, A; <= 1 in y" % (1 if quick else 2)}),
         Sub("policies", drv_policies, {"n": 3 if quick else 4, "formulas": allf, "entries": pe[:2] if quick else pe,
